@@ -54,6 +54,7 @@ class Sim:
 		# fault plan: dict task_id -> kind ('die', 'unpicklable'); interrupt_at: step number
 		self.task_faults = {}
 		self.interrupt_at = None
+		self.cancel_at = None          # step at which the owner of a caller-supplied pool cancels its queued tasks
 		self.blocking_steps = 0
 		self.pool_log = []             # (flavour, max_workers) of every pool created
 
@@ -76,6 +77,19 @@ class Sim:
 			self.interrupt_at = None
 			self.ctx.fault('interrupt', step=self.blocking_steps, in_flight=len(cands))
 			raise KeyboardInterrupt()
+		if self.cancel_at is not None and self.blocking_steps == self.cancel_at:
+			self.cancel_at = None
+			n_cancelled = 0
+			for p in self.pools:
+				for t in p.queue:
+					if t.future.cancel():
+						n_cancelled += 1
+				p.queue = []
+			if n_cancelled:
+				self.ctx.fault('owner_cancelled_queued_tasks', n=n_cancelled, step=self.blocking_steps)
+			cands = self._runnable()
+			if not cands:
+				return True
 		if self.script is not None:
 			task = None
 			while self.script:
@@ -126,6 +140,8 @@ class Sim:
 	def step_until(self, cond, what):
 		while not cond():
 			if not self.step():
+				if cond():      # e.g. the last queued tasks turned out to be cancelled by their owner
+					break
 				raise HarnessError(f'deadlock in simulated pool: blocked on {what} with nothing runnable')
 
 
